@@ -46,102 +46,154 @@ def check(chk):
     chk.require(tr is not None, "Sanitizer.transform vanished")
     ff = FuncFacts.of(tr)
     data = [p for p in tr.params if p != "self"][0]
-    raises = [n for n in walk_no_nested(tr.node) if isinstance(n, ast.Raise)]
+    from .common import class_closure, closure_paths, callers_in_class, under_flag, effective_guards
+    clo = class_closure(pm, san, tr)
 
-    def under_check_nans(node):
-        from .common import under_flag
-        return under_flag(ff, node, "check_nans", True)
+    def cpaths(g, e, spine=False):
+        """provenance of an expression of `g` (transform or a helper it calls) in terms of transform"""
+        return ff.paths(e, spine_only=spine, follow=True) if g is tr else closure_paths(pm, san, tr, g, e, spine, 0, clo)
 
-    # helpers: which helper computes what (derived from their bodies)
-    def helper_kind(name):
-        m = san.resolve(name)
-        if m is None:
-            return None
-        t = " ".join(norm(r.value) for r in returns_of(m) if r.value is not None)
-        if "notnull" in t and ".any(self.sample_name)" in t:
-            return "valid_features"
-        if "notnull" in t and ".any(self.feature_name)" in t:
-            return "valid_samples"
-        if "notnull" in t and ".sum(self.feature_name)" in t:
-            return "features_per_sample"
-        return None
+    def sites_in_tr(g, node):
+        """the node(s) of transform at which `node` (in g) is executed: itself, or the calls that lead to g"""
+        if g is tr:
+            return [node]
+        out = []
+        for caller, call in callers_in_class(pm, san, g):
+            if any(caller is x for x in clo):
+                out += sites_in_tr(caller, call)
+        return out
 
-    def kinds_of(e):
-        ks = set()
-        params, attrs, ops = _expr_sources(ff, e)
-        for o in ops:
-            k = helper_kind(o)
-            if k:
-                ks.add(k)
-        t = norm(e)
-        return ks, params, attrs, ops
+    def under_check_nans(g, node):
+        ss = sites_in_tr(g, node)
+        inner = g is not tr and under_flag(FuncFacts.of(g), node, "check_nans", True)
+        return inner or (bool(ss) and all(under_flag(ff, x, "check_nans", True) for x in ss))
 
+    def dim_of(o) -> str:
+        """which dimension a reduction runs along: 'sample' / 'feature' / ''"""
+        args = list(o.node.args) + [k.value for k in o.node.keywords if k.arg in ("dim", "dims", None)]
+        for a in args:
+            for q in ff.eval_in(o.frame, a, spine_only=True) if o.frame is not None else ff.paths(a, spine_only=True, follow=True):
+                nm = q.atom.name
+                if q.atom.kind == "selfattr" and nm in ("self.sample_name", "self.feature_name"):
+                    return nm.split(".")[1].split("_")[0]
+        return ""
+
+    def kinds_of_paths(ps):
+        """classify data-derived values: valid_features = notnull().any(sample), valid_samples = notnull().any(feature),
+        features_per_sample = notnull().sum(feature)"""
+        ks, attrs, ops = set(), set(), set()
+        for p in ps:
+            if p.atom.kind == "selfattr":
+                attrs.add(p.atom.name)
+            names = [(o.kind, o.name) for o in p.ops]
+            for o in p.ops:
+                if o.kind in ("method", "arg", "marg", "via"):
+                    ops.add(o.name.split(".")[-1])
+            if p.atom.kind == "param" and p.atom.name == data and ("method", "notnull") in names:
+                for o in p.ops:
+                    if o.kind == "method" and o.name == "any":
+                        d = dim_of(o)
+                        ks.add("valid_features" if d == "sample" else "valid_samples" if d == "feature" else "")
+                    if o.kind == "method" and o.name == "sum" and dim_of(o) == "feature":
+                        ks.add("features_per_sample")
+        ks.discard("")
+        return ks, attrs, ops
+
+    all_raises = [(g, r) for g in clo for r in walk_no_nested(g.node) if isinstance(r, ast.Raise)]
     mask_raise = iso_raise = None
-    for r in raises:
-        own = [g for g in ff.guards(r) if g.kind in ("if", "case")][-1:]  # the condition that makes this raise fire
-        # ignore an enclosing `if self.check_nans:` as "own" condition
-        own = [g for g in own if not is_self_attr(g.test, "check_nans")] or [g for g in ff.guards(r) if g.kind == "early-exit"][-1:]
-        for g in own:
-            ks, params, attrs, ops = kinds_of(g.test)
-            if "valid_features" in ks and "self.is_valid_feature" in attrs and ({"equals", "identical"} & ops or isinstance(g.test, ast.Compare)):
-                fires_when_different = ("equals" in ops or "identical" in ops) and (
-                    (isinstance(g.test, ast.UnaryOp) and isinstance(g.test.op, ast.Not) and g.polarity) or (not isinstance(g.test, ast.UnaryOp) and not g.polarity))
-                if fires_when_different or isinstance(g.test, ast.Compare):
-                    mask_raise = r
-            if "features_per_sample" in ks and data in params:
-                iso_raise = r
-    chk.check(mask_raise is not None and under_check_nans(mask_raise), "GUARD.mask", tr, mask_raise or tr.node,
+    for g, r in all_raises:
+        gf = FuncFacts.of(g)
+        # the condition that makes this raise fire: its innermost guard that is not the check_nans switch
+        egs = [(t, pol, kind, raw) for (t, pol, kind), raw in zip(effective_guards(gf, r), gf.guards(r)) if kind in ("if", "early-exit") and not is_self_attr(t, "check_nans")]
+        for t, pol, kind, raw in egs[-1:]:
+            ks, attrs, ops = kinds_of_paths(cpaths(g, raw.test))
+            if "valid_features" in ks and "self.is_valid_feature" in attrs:
+                if {"equals", "identical"} & ops:
+                    # raise when NOT equal
+                    if not pol:
+                        mask_raise = (g, r)
+                elif isinstance(t, ast.Compare):
+                    mask_raise = (g, r)
+            if "features_per_sample" in ks and mask_raise != (g, r):
+                iso_raise = (g, r, raw)
+    chk.check(mask_raise is not None and under_check_nans(*mask_raise), "GUARD.mask", mask_raise[0] if mask_raise else tr, mask_raise[1] if mask_raise else tr.node,
               construct="raise unless current valid-feature mask equals the fitted one (under check_nans)",
               why="transform data whose missing features differ from the training data is no longer refused")
-    chk.check(iso_raise is not None and under_check_nans(iso_raise), "GUARD.isolated", tr, iso_raise or tr.node,
+    chk.check(iso_raise is not None and under_check_nans(iso_raise[0], iso_raise[1]), "GUARD.isolated", iso_raise[0] if iso_raise else tr, iso_raise[1] if iso_raise else tr.node,
               construct="raise on isolated NaNs (per-sample valid-feature count) (under check_nans)",
               why="data with isolated NaNs is no longer refused: NaNs propagate silently into the decomposition")
     # the isolated predicate compares against 0 and the number of valid features
     if iso_raise is not None:
+        g, r, raw = iso_raise
+        gf = FuncFacts.of(g)
         ok = False
-        for g in [g for g in ff.guards(iso_raise) if g.kind in ("if", "case")][-1:]:
-            params, attrs, ops = _expr_sources(ff, g.test)
-            if "isin" in ops:
-                for c in ff.calls():
-                    if isinstance(c.func, ast.Attribute) and c.func.attr == "isin" and c.args and isinstance(c.args[0], (ast.List, ast.Tuple)):
-                        el = c.args[0].elts
-                        zero = any(isinstance(x, ast.Constant) and x.value == 0 for x in el)
-                        tot = any("valid_features" in kinds_of(x)[0] and "sum" in kinds_of(x)[3] for x in el)
-                        ok = zero and tot and len(el) == 2
-            elif {"Eq", "NotEq"} & {type(o).__name__ for n in ast.walk(g.test) if isinstance(n, ast.Compare) for o in n.ops}:
-                ok = True
-        chk.check(ok, "GUARD.isolated.predicate", tr, iso_raise, why="a sample is acceptable only if it has no valid feature at all or all features that are valid in the data")
+        ps = cpaths(g, raw.test)
+        isin_calls = {o.node for p in ps for o in p.ops if o.kind in ("method", "marg") and o.name == "isin"}
+        if isin_calls:
+            for c in isin_calls:
+                owner = next((h for h in clo if any(x is c for x in ast.walk(h.node))), g)
+                a0 = c.args[0] if c.args else None
+                from .common import inline_locals
+                a0 = inline_locals(FuncFacts.of(owner), a0) if a0 is not None else None
+                if isinstance(a0, (ast.List, ast.Tuple)):
+                    el = a0.elts
+                    zero = any(isinstance(x, ast.Constant) and x.value == 0 for x in el)
+                    tot = False
+                    for x in el:
+                        if isinstance(x, ast.Constant):
+                            continue
+                        # the element lives in `owner` (possibly as part of an inlined copy): classify by the original names it reads
+                        names = [n for n in ast.walk(x) if isinstance(n, ast.Name)]
+                        kx = set()
+                        for nm in names:
+                            orig = next((y for y in ast.walk(owner.node) if isinstance(y, ast.Name) and y.id == nm.id and isinstance(y.ctx, ast.Load)), None)
+                            if orig is not None:
+                                kx |= kinds_of_paths(cpaths(owner, orig))[0]
+                        if "valid_features" in kx and any(isinstance(n, ast.Attribute) and n.attr == "sum" for n in ast.walk(x)):
+                            tot = True
+                    ok = zero and tot and len(el) == 2
+        elif any(isinstance(n, ast.Compare) and isinstance(n.ops[0], (ast.Eq, ast.NotEq)) for n in ast.walk(raw.test)):
+            ok = True
+        chk.check(ok, "GUARD.isolated.predicate", g, r, why="a sample is acceptable only if it has no valid feature at all or all features that are valid in the data")
     # drop
-    wh = [c for c in ff.calls() if isinstance(c.func, ast.Attribute) and c.func.attr == "where"]
     okd = False
     node = tr.node
-    for c in wh:
-        ks, params, attrs, ops = kinds_of(c.args[0]) if c.args else (set(), set(), set(), set())
-        drop = call_kwargs(c).get("drop")
-        if {"valid_features", "valid_samples"} <= ks and isinstance(drop, ast.Constant) and drop.value is True and under_check_nans(c):
-            rets = returns_of(tr)
-            okd = any(any(o.node is c for p in ff.paths(r.value, spine_only=True) for o in p.ops) for r in rets)
-            node = c
+    for g in clo:
+        gf = FuncFacts.of(g)
+        for c in gf.calls():
+            if not (isinstance(c.func, ast.Attribute) and c.func.attr == "where" and c.args):
+                continue
+            ks, attrs, ops = kinds_of_paths(cpaths(g, c.args[0]))
+            drop = call_kwargs(c).get("drop")
+            if {"valid_features", "valid_samples"} <= ks and isinstance(drop, ast.Constant) and drop.value is True and under_check_nans(g, c):
+                rets = returns_of(tr)
+                okd = any(any(o.node is c for p in ff.paths(r.value, spine_only=True, follow=True) for o in p.ops) for r in rets)
+                node = c
     chk.check(okd, "GUARD.drop", tr, node, construct="X.where(valid_features & valid_samples, drop=True) is returned",
               why="fully missing features/samples are no longer removed by both masks before the decomposition")
-    # coords
-    cc = [c for c in ff.calls() if is_self_attr(c.func, "_check_input_coords")]
-    helper = san.resolve("_check_input_coords")
-    okh = False
-    if helper is not None:
-        hf = FuncFacts.of(helper)
-        for r in [n for n in walk_no_nested(helper.node) if isinstance(n, ast.Raise)]:
-            for g in hf.guards(r):
-                p2, a2, o2 = _expr_sources(hf, g.test)
-                if "self.feature_coords" in a2 and ({"identical", "equals"} & o2):
-                    okh = True
-    chk.check(okh, "GUARD.coords.raises", helper or san.qualname, None, construct="_check_input_coords raises unless feature coordinates are identical to fit",
+    # coords: a raise (anywhere in the closure) unless the feature coordinates are identical to the fitted ones, executed
+    # before the masks are computed
+    coord_raise = None
+    for g, r in all_raises:
+        gf = FuncFacts.of(g)
+        for (t, pol, kind), raw in zip(effective_guards(gf, r), gf.guards(r)):
+            ks, attrs, ops = kinds_of_paths(cpaths(g, raw.test))
+            if "self.feature_coords" in attrs and ({"identical", "equals"} & ops) and not pol:
+                coord_raise = (g, r)
+    chk.check(coord_raise is not None, "GUARD.coords.raises", coord_raise[0] if coord_raise else san.qualname, coord_raise[1] if coord_raise else None,
+              construct="_check_input_coords raises unless feature coordinates are identical to fit",
               why="data whose feature coordinates differ from the training data is no longer refused")
-    if cc:
-        cn = ff.cfg.node_for(cc[0])
-        uses = [c for c in ff.calls() if is_self_attr(c.func) and helper_kind(c.func.attr)]
-        chk.check(all(ff.cfg.dominates(cn, ff.cfg.node_for(u)) for u in uses) and bool(uses), "GUARD.coords.dominates", tr, cc[0],
-                  why="masks are computed before the coordinate check")
+    if coord_raise is not None:
+        sites = sites_in_tr(*coord_raise)
+        # the mask computations: reductions of notnull() in transform's closure
+        uses = []
+        for g in clo:
+            for c in FuncFacts.of(g).calls():
+                if isinstance(c.func, ast.Attribute) and c.func.attr == "notnull":
+                    uses += sites_in_tr(g, c)
+        okdom = bool(sites) and bool(uses) and all(any(ff.cfg.dominates(ff.cfg.node_for(s0), ff.cfg.node_for(u)) for s0 in sites) for u in uses)
+        # the check must actually run on the transform path (a flag parameter of a shared helper must be true here)
+        chk.check(okdom, "GUARD.coords.dominates", tr, sites[0] if sites else tr.node, why="masks are computed before the coordinate check")
     else:
         chk.violation("GUARD.coords.dominates", tr, tr.node, construct="self._check_input_coords(X)", why="transform no longer checks the feature coordinates")
     # fit goes through transform
